@@ -243,6 +243,25 @@ def f_after(seconds, value):
     return value
 
 
+def _mk_failing_init():
+    """subclasses of the six worker classes whose child-side start-up hook raises"""
+    from pyworkers.thread import ThreadWorker
+    from pyworkers.process import ProcessWorker
+    from pyworkers.remote import RemoteWorker
+    from pyworkers.persistent_thread import PersistentThreadWorker
+    from pyworkers.persistent_process import PersistentProcessWorker
+    from pyworkers.persistent_remote import PersistentRemoteWorker
+    g = globals()
+
+    def _init_child(self):
+        raise RuntimeError('start-up hook failed')
+    for base in (ThreadWorker, ProcessWorker, RemoteWorker, PersistentThreadWorker, PersistentProcessWorker, PersistentRemoteWorker):
+        name = 'FailingInit' + base.__name__
+        if name not in g:
+            g[name] = type(name, (base,), {'__module__': __name__, '_init_child': _init_child})
+    return [g['FailingInit' + b.__name__] for b in (ThreadWorker, ProcessWorker, RemoteWorker, PersistentThreadWorker, PersistentProcessWorker, PersistentRemoteWorker)]
+
+
 # ---- C09: pool target: squares; 'hang' -> uncooperative loop; negative -> raises (kills the worker)
 def t_pool(x=0, *a, **k):
     if x == 'hang':
